@@ -259,6 +259,18 @@ def call_np(interp, name, args, kwargs, lineno):
             by = _to_bool01(y)
             return bx * by if name == 'logical_and' else 1 - (1 - bx) * (1 - by)
         return Box(A.elementwise(ctx, g, [args[0], args[1]], kind='bool', origin=lineno))
+    if name in ('isclose', 'allclose'):
+        # tolerance predicates: opaque 0/1 atoms; neither outcome implies an exact relation between the operands.  The
+        # tolerances are part of the key (rtol / atol literal or default), so that the units domain can look at them.
+        rtol = kwargs.get('rtol', args[2] if len(args) > 2 else Rat.const(Fraction(1, 100000)))
+        atol = kwargs.get('atol', args[3] if len(args) > 3 else Rat.const(Fraction(1, 100000000)))
+        if name == 'isclose':
+            def ic(x, y):
+                return Rat.atom(('tolpred', 'isclose', x, y, R(rtol), R(atol)))
+            if all(isinstance(a, (Rat, bool)) for a in args[:2]):
+                return ic(R(args[0]), R(args[1]))
+            return Box(A.elementwise(ctx, ic, [args[0], args[1]], kind='bool', origin=lineno))
+        return Rat.atom(('tolpred', 'allclose', ('line', interp.cur_file, lineno), R(rtol), R(atol)))
     if name == 'where':
         if len(args) != 3:
             raise AnalysisError("np.where with one argument")
@@ -528,6 +540,12 @@ def call_builtin(interp, name, args, kwargs, lineno, fr):
             if e.exc == 'AttributeError' and len(args) > 2:
                 return args[2]
             raise
+    if name == 'id':
+        return Rat.const(id(args[0]))         # identity of the abstract object (stable while it is alive, like CPython's)
+    if name == 'dict' and not args and not kwargs:
+        return {}
+    if name == 'set' and not args:
+        return set()
     if name == 'deepcopy':
         return deep_copy(args[0], {})
     if name == 'csr_array':
